@@ -1430,6 +1430,9 @@ func (e *OrdEngine) step(ins ssa.Instruction, fr *Frame, f *Fact) []*Fact {
 		} else if strings.HasPrefix(base.Tag, "~") {
 			e.setVal(x, AV{Tag: base.Tag}, f)
 		}
+		if e.Spec.Instr != nil {
+			e.Spec.Instr(cx, ins, f)
+		}
 		return []*Fact{f}
 	case *ssa.IndexAddr:
 		base := e.eval(x.X, fr, f)
